@@ -322,8 +322,7 @@ func equalRefs(a, b *Reference) bool {
 		a.lRef != b.lRef ||
 		(a.md5 != "" && b.md5 != "" && a.md5 != b.md5) ||
 		(a.assemID != "" && b.assemID != "" && a.assemID != b.assemID) ||
-		(a.species != "" && b.species != "" && a.species != b.species) ||
-		(a.uri != nil && b.uri != nil && a.uri != b.uri) {
+		(a.species != "" && b.species != "" && a.species != b.species) {
 		return false
 	}
 	if a.uri != nil && b.uri != nil && a.uri.String() != b.uri.String() {
